@@ -5,6 +5,8 @@ use vh::CountingAlloc;
 static GLOBAL: CountingAlloc = CountingAlloc;
 
 fn main() {
+    // a workload never outlives the driver that started it
+    unsafe { libc::prctl(libc::PR_SET_PDEATHSIG, libc::SIGKILL) };
     let args: Vec<String> = std::env::args().collect();
     let w = args.get(1).map(|s| s.as_str()).unwrap_or("");
     let rest = &args[2.min(args.len())..];
